@@ -10,6 +10,7 @@ itself is evaluated on the implementation trace by direct monitors (cleanup once
 the last next, root after cleanup, tracked op-states destroyed exactly once).
 The E1 units for the internal races of take_until / stop_immediately are added below by their owner."""
 import k2s
+from units import stream_proto
 LEVEL = "proof"
 def run(chk, replay=None):
     chk.cov["trusted_base"] = [
@@ -19,5 +20,8 @@ def run(chk, replay=None):
         "sequential runs only: one thread, events injected between quiescent states (races: E1 units)"]
     chk.cov["rule"] = ("K2-stream: generated pipelines x scripts (next/cleanup completions, stop, armed stop); "
                        "non-trivial = has stop / armed stop / error / cleanup error")
+    chk.cov["trusted_base"] += stream_proto.trusted_base()
+    chk.cov["model_variant"] = dict(stream_proto.MODEL_VARIANT)
     chk.prove()
     k2s.standard_k2s(chk)
+    stream_proto.run_units(chk)   # E1: races inside stop_immediately / take_until / type_erased_stream next
